@@ -485,10 +485,10 @@ static void roundtrip_oracle(const std::string& id, const T& v) {
 
 template <typename T>
 static std::string op_dec(const std::string& id, const std::vector<uint8_t>& bytes) {
-  // copy into an exactly-sized heap buffer so that ASan sees any over-read
-  std::unique_ptr<uint8_t[]> buf(new uint8_t[bytes.size() ? bytes.size() : 1]);
-  std::copy(bytes.begin(), bytes.end(), buf.get());
-  ReadStream s(buf.get(), bytes.size());
+  // exactly as an API user passes bytes: an exactly-sized std::vector handed over as a Slice (capacity == size, so ASan
+  // sees any over-read; the EMPTY input has data() == nullptr and no dummy buffer is substituted)
+  std::vector<uint8_t> buf(bytes.begin(), bytes.end());
+  ReadStream s{Slice<const uint8_t>(buf.data(), buf.size())};
   T v;
   ValidationState st;
   if (!decode(s, v, st)) {
@@ -644,6 +644,7 @@ static void check(const VbkBlock& v) {
 static void check(const PopData& v) {
   ValidationState st;
   g_checked++;
+  (void)v.estimateSize();
   if (g_no_progpow) {
     for (auto& b : v.context) check(b);
     for (auto& b : v.vtbs) check(b);
@@ -658,17 +659,41 @@ static void check(const PopData& v) {
     if (b.blockOfProof.getHeight() > g_max_height) return;
   g_check_valid += checkPopData(params().validator, v, st);
 }
+static void check(const VbkTx& v) {
+  ValidationState st;
+  g_checked++;
+  g_check_valid += checkVbkTx(v, params().alt, params().vbk, st);
+}
+static void check(const VbkPopTx& v) {
+  ValidationState st;
+  g_checked++;
+  g_check_valid += checkVbkPopTx(v, st, params().btc, params().vbk);
+}
+static void check(const PublicationData& v) {
+  ValidationState st;
+  g_checked++;
+  g_check_valid += checkPublicationData(v, params().alt, st);
+}
+static void check(const Address& v) {
+  g_checked++;
+  WriteStream w;
+  v.getPopBytes(w);
+  std::vector<uint8_t> pk{1, 2, 3};
+  g_check_valid += v.isDerivedFromPublicKey(pk) ? 1 : 0;
+}
 template <typename T>
 static void check(const T&) {}
 
 template <typename T>
 static std::string op_chk(const std::string& id, const std::vector<uint8_t>& bytes) {
-  std::unique_ptr<uint8_t[]> buf(new uint8_t[bytes.size() ? bytes.size() : 1]);
-  std::copy(bytes.begin(), bytes.end(), buf.get());
-  ReadStream s(buf.get(), bytes.size());
+  std::vector<uint8_t> buf(bytes.begin(), bytes.end());
+  ReadStream s{Slice<const uint8_t>(buf.data(), buf.size())};
   T v;
   ValidationState st;
   if (!decode(s, v, st)) return "INVALID";
+  // whatever parsed is serialised again and measured, as every consumer of a parsed payload does
+  auto e = encode(v);
+  if (estimate(v) != e.size()) vh::oracle_fail(id, "estimateSize differs from the encoded size of a parsed value");
   check(v);
   return "V";
 }
